@@ -367,6 +367,10 @@ func Concretize(i int) int                        { return i }
 func IsConcrete(v interface{}) bool               { return true }
 func Epoch()                                      {}
 
+// NoGlobalWrites reports (engine only) that no repository function has stored to a package-level
+// variable since the last Epoch; natively it cannot be observed and is true.
+func NoGlobalWrites() bool { return true }
+
 // Ite and friends build one term instead of forking (natively: plain Go).
 func Ite(c bool, a, b float64) float64 {
 	if c {
